@@ -1,7 +1,12 @@
 import DosModel.Model.Content
 import DosModel.Model.Eval
+import DosModel.Model.ContentPath
 import DosModel.Gen.DosnodeConsts
+import DosModel.Gen.DosnodeFlow
 def main : IO Unit := Dos.lineLoop (fun l =>
-  match Dos.Eval.stepLine Dos.Gen.padSize Dos.Gen.stripLen l with
+  match Dos.ContentPath.stepLine Dos.Gen.padSize Dos.Gen.stripLen Dos.Gen.DosnodeFlow.maxDocumentSize l with
   | some o => o
-  | none => Dos.Content.stepLine Dos.Gen.padSize Dos.Gen.stripLen l)
+  | none =>
+    match Dos.Eval.stepLine Dos.Gen.padSize Dos.Gen.stripLen l with
+    | some o => o
+    | none => Dos.Content.stepLine Dos.Gen.padSize Dos.Gen.stripLen l)
